@@ -690,7 +690,7 @@ func c03StreamBound(w *World, r *Report, rule string) {
 					continue
 				}
 				pb := w.prov(big, provOpts{})
-				ps := w.prov(small, provOpts{})
+				ps := w.prov(small, c13Opts)
 				dependsRead := pb.hasCallNamed("Read")
 				dependsSize := ps.hasField("", "Size") || ps.hasField("", "End")
 				if !dependsRead || !dependsSize {
@@ -704,7 +704,7 @@ func c03StreamBound(w *World, r *Report, rule string) {
 				"running total + chunk > size => error, on every path to the write", "the device write is reachable without the (total + chunk > partition size) test: data can be written past the end of the partition")
 			// offset = Start*lss + total
 			off := argsOf(c)[1]
-			po := w.prov(off, provOpts{})
+			po := w.prov(off, c13Opts)
 			hasStart := po.hasField("", "Start") || po.hasCallNamed("GetStart")
 			hasTotal := false
 			hasStart = false
@@ -712,7 +712,7 @@ func c03StreamBound(w *World, r *Report, rule string) {
 				if t.neg {
 					continue
 				}
-				pt := w.prov(t.v, provOpts{})
+				pt := w.prov(t.v, c13Opts)
 				if pt.hasField("", "Start") || pt.hasCallNamed("GetStart") {
 					hasStart = true
 				} else if pt.hasCallNamed("WriteAt") {
@@ -936,6 +936,10 @@ func runC13(w *World, r *Report) {
 	r.Floor("C13-e", r.countRule("C13-e"), 3)
 }
 
+// c13Opts: geometry may reach a use through the package's own getters and small helpers (GetStart(), GetSize(),
+// a sectors-to-bytes helper): follow their results and bind their parameters to the actuals.
+var c13Opts = provOpts{followCalls: true, bindParams: true}
+
 func c13Width(w *World, r *Report) {
 	for _, n := range partitionImpls(w) {
 		for _, mn := range []string{"WriteContents", "ReadContents", "GetStart", "GetSize"} {
@@ -945,31 +949,49 @@ func c13Width(w *World, r *Report) {
 			}
 			name := fnName(m)
 			var bad []string
-			allInstrs(m, func(ins ssa.Instruction) {
-				switch x := ins.(type) {
-				case *ssa.BinOp:
-					if x.Op != token.MUL && x.Op != token.ADD && x.Op != token.SHL {
-						return
+			// the method and the in-package helpers it calls (a sectors-to-bytes helper shared by the getters)
+			scope := []*ssa.Function{m}
+			for _, c := range calls(m, false, func(c ssa.CallInstruction) bool { return true }) {
+				if g := c.Common().StaticCallee(); g != nil && w.fnSet[g] && w.pkgOf(g) == w.pkgOf(m) && g.Blocks != nil && g != m {
+					dup := false
+					for _, x := range scope {
+						if x == g {
+							dup = true
+						}
 					}
-					bits := typeBits(x.Type())
-					if bits == 0 || bits >= 64 {
-						return
-					}
-					p := w.prov(x, provOpts{})
-					if p.hasField("", "Start") || p.hasField("", "Size") || p.hasField("", "End") {
-						bad = append(bad, fmt.Sprintf("%s in %d bits at %s", x.Op, bits, w.relFile(instrPos(x))))
-					}
-				case *ssa.Convert:
-					to, from := typeBits(x.Type()), typeBits(x.X.Type())
-					if to == 0 || from == 0 || to >= from {
-						return
-					}
-					p := w.prov(x.X, provOpts{})
-					if p.hasField("", "Start") || p.hasField("", "Size") || p.hasField("", "End") {
-						bad = append(bad, fmt.Sprintf("narrowing %d->%d bits at %s", from, to, w.relFile(instrPos(x))))
+					if !dup {
+						scope = append(scope, g)
 					}
 				}
-			})
+			}
+			for _, fnx := range scope {
+				allInstrs(fnx, func(ins ssa.Instruction) {
+					switch x := ins.(type) {
+					case *ssa.BinOp:
+						if x.Op != token.MUL && x.Op != token.ADD && x.Op != token.SHL {
+							return
+						}
+						bits := typeBits(x.Type())
+						if bits == 0 || bits >= 64 {
+							return
+						}
+						p := w.prov(x, c13Opts)
+						if p.hasField("", "Start") || p.hasField("", "Size") || p.hasField("", "End") {
+							bad = append(bad, fmt.Sprintf("%s in %d bits at %s", x.Op, bits, w.relFile(instrPos(x))))
+						}
+					case *ssa.Convert:
+						to, from := typeBits(x.Type()), typeBits(x.X.Type())
+						if to == 0 || from == 0 || to >= from {
+							return
+						}
+						p := w.prov(x.X, c13Opts)
+						if p.hasField("", "Start") || p.hasField("", "Size") || p.hasField("", "End") {
+							bad = append(bad, fmt.Sprintf("narrowing %d->%d bits at %s", from, to, w.relFile(instrPos(x))))
+						}
+					}
+				})
+			}
+			bad = uniq(bad)
 			r.Check(len(bad) == 0, "C13-a", name, "LBA arithmetic in 64 bits", w.relFile(m.Pos()), "no sub-64-bit *,+,<< or narrowing on values derived from Start/Size/End",
 				"sector-to-byte arithmetic is performed in a type narrower than 64 bits and wraps for partitions beyond 4 GiB: "+strings.Join(bad, "; "))
 		}
@@ -993,7 +1015,7 @@ func c13Incomplete(w *World, r *Report) {
 			if !ok || idx != eqIdx {
 				return false
 			}
-			px, py := w.prov(x, provOpts{}), w.prov(y, provOpts{})
+			px, py := w.prov(x, c13Opts), w.prov(y, c13Opts)
 			sizeSide := func(p *Prov) bool { return p.hasField("", "Size") }
 			totalSide := func(p *Prov) bool { return p.hasCallNamed("WriteAt") }
 			return (sizeSide(px) && totalSide(py)) || (sizeSide(py) && totalSide(px))
@@ -1023,7 +1045,7 @@ func c13ReadClamp(w *World, r *Report) {
 			data := argsOf(c)[0]
 			// the number of bytes handed over depends on size (remaining): either the slice's high bound or the
 			// length of the buffer read into depends on the partition size
-			p := w.prov(data, provOpts{})
+			p := w.prov(data, c13Opts)
 			dep := false
 			var visit func(v ssa.Value, d int)
 			visit = func(v ssa.Value, d int) {
@@ -1032,7 +1054,7 @@ func c13ReadClamp(w *World, r *Report) {
 				}
 				if sl, ok := v.(*ssa.Slice); ok {
 					if sl.High != nil {
-						ph := w.prov(sl.High, provOpts{})
+						ph := w.prov(sl.High, c13Opts)
 						if ph.hasField("", "Size") || ph.hasCallNamed("GetSize") || ph.hasField("", "End") || c13DependsOnSizeByControl(w, rc, sl.High) {
 							dep = true
 						}
@@ -1045,7 +1067,7 @@ func c13ReadClamp(w *World, r *Report) {
 			for _, rd := range calls(rc, false, isReadAt) {
 				buf := argsOf(rd)[0]
 				if sl, ok := buf.(*ssa.Slice); ok && sl.High != nil {
-					ph := w.prov(sl.High, provOpts{})
+					ph := w.prov(sl.High, c13Opts)
 					if ph.hasField("", "Size") || ph.hasCallNamed("GetSize") || c13DependsOnSizeByControl(w, rc, sl.High) {
 						dep = true
 					}
@@ -1095,7 +1117,7 @@ func c13ChunkEqualsSector(w *World, fn *ssa.Function) (int64, bool) {
 	}
 	var chunk, mult map[int64]bool
 	for _, rd := range calls(fn, false, isReadAt) {
-		p := w.prov(argsOf(rd)[0], provOpts{})
+		p := w.prov(argsOf(rd)[0], c13Opts)
 		for _, rt := range p.Roots {
 			if ms, ok := rt.Val.(*ssa.MakeSlice); ok {
 				if s, ok := constSet(ms.Len); ok {
@@ -1104,24 +1126,45 @@ func c13ChunkEqualsSector(w *World, fn *ssa.Function) (int64, bool) {
 			}
 		}
 	}
-	allInstrs(fn, func(ins ssa.Instruction) {
-		b, ok := ins.(*ssa.BinOp)
-		if !ok || b.Op != token.MUL {
-			return
-		}
-		px, py := w.prov(b.X, provOpts{}), w.prov(b.Y, provOpts{})
-		var other ssa.Value
-		if px.hasField("", "Size") {
-			other = b.Y
-		} else if py.hasField("", "Size") {
-			other = b.X
-		}
-		if other != nil {
-			if s, ok := constSet(other); ok {
-				mult = s
+	// the sector multiplication may live in a getter or helper the function calls
+	mulScope := []*ssa.Function{fn}
+	for d := 0; d < 2; d++ {
+		for _, f := range append([]*ssa.Function{}, mulScope...) {
+			for _, c := range calls(f, false, func(c ssa.CallInstruction) bool { return true }) {
+				if g := c.Common().StaticCallee(); g != nil && w.fnSet[g] && w.pkgOf(g) == w.pkgOf(fn) && g.Blocks != nil {
+					dup := false
+					for _, x := range mulScope {
+						if x == g {
+							dup = true
+						}
+					}
+					if !dup {
+						mulScope = append(mulScope, g)
+					}
+				}
 			}
 		}
-	})
+	}
+	for _, mf := range mulScope {
+		allInstrs(mf, func(ins ssa.Instruction) {
+			b, ok := ins.(*ssa.BinOp)
+			if !ok || b.Op != token.MUL {
+				return
+			}
+			px, py := w.prov(b.X, c13Opts), w.prov(b.Y, c13Opts)
+			var other ssa.Value
+			if px.hasField("", "Size") {
+				other = b.Y
+			} else if py.hasField("", "Size") {
+				other = b.X
+			}
+			if other != nil {
+				if s, ok := constSet(other); ok {
+					mult = s
+				}
+			}
+		})
+	}
 	if len(chunk) == 1 && len(mult) == 1 {
 		for c := range chunk {
 			if mult[c] {
@@ -1141,7 +1184,7 @@ func c13DependsOnSizeByControl(w *World, fn *ssa.Function, v ssa.Value) bool {
 	for _, pred := range ph.Block().Preds {
 		for b := pred; b != nil; b = b.Idom() {
 			if iff, ok := lastInstr(b).(*ssa.If); ok {
-				p := w.prov(iff.Cond, provOpts{})
+				p := w.prov(iff.Cond, c13Opts)
 				if p.hasField("", "Size") || p.hasCallNamed("GetSize") {
 					return true
 				}
